@@ -63,13 +63,14 @@ ASSUMPTIONS = ['molecule adjacency is symmetric (Graph invariant; the driver ans
                'held to formula / skeleton preservation and to all other clauses',
                'molecules whose non-aromatic atoms already carry an undefined hydrogen count are outside the domain']
 HAS_DRIVER = True
-EXTRA_MODULES = ['Spec.Kekule', 'Model.C05Kekule', 'Model.C05Rules', 'Gen.AromaticRules']
+EXTRA_MODULES = ['Spec.Kekule', 'Model.C05Kekule', 'Model.C05Rules', 'Model.C05Thiele', 'Gen.AromaticRules']
 FINDINGS_MODULE = 'ChythonModel.Findings.C05'
-PROGRAMS = ['MoleculeContainer.kekule', 'MoleculeContainer.enumerate_kekule', 'MoleculeContainer.thiele',
+PROGRAMS = ['Thiele.thiele ring eligibility (monocyclic templates)', 'MoleculeContainer.kekule', 'MoleculeContainer.enumerate_kekule', 'MoleculeContainer.thiele',
             'MoleculeContainer.thiele(fix_tautomers=False)', 'Kekule.__prepare_rings', 'Kekule.__fix_rings',
             'MoleculeContainer.calc_implicit (through kekule)', 'aromatics._rules.rules']
 ENUM_CAP = 48
 KNOWN_TAUTOMER_SIG = 'C05/thiele-numbering-dependent/tautomer-fix-acceptor-choice'
+KNOWN_FALSE_SIG = 'C05/thiele-false-but-changed/tautomer-fix-without-aromatisation'
 
 _state = {}
 
@@ -177,6 +178,27 @@ def maps_ints(logs):
             for q, n in mp:
                 out += [q, n]
     return out
+
+
+def wire_core(resp):
+    """`<flag> | <mol wire>` with the stereo columns of atoms and bonds blanked"""
+    head, _, w = resp.partition(' | ')
+    xs = w.split()
+    if not xs:
+        return resp
+    out, i, n = [head, xs[0]], 1, int(xs[0])
+    try:
+        for _ in range(n):
+            row = xs[i:i + 8]
+            deg = int(row[7])
+            out += row[:6] + ['*', row[7]]
+            i += 8
+            for _ in range(deg):
+                out += xs[i:i + 2] + ['*']
+                i += 3
+    except (IndexError, ValueError):
+        return resp
+    return ' '.join(out)
 
 
 def line(op, *int_lists):
@@ -395,13 +417,116 @@ def gen_kekule(rng):
     return m
 
 
+def polyhexes(n_max):
+    """free polyhexes (benzenoid skeletons) with up to `n_max` hexagons, exhaustive: sets of cells of the hexagonal lattice
+    grown cell by cell, one representative per class under the 12 lattice symmetries. Yields lists of axial cells."""
+    def canon(cells):
+        best = None
+        for refl in (False, True):
+            cs = [(r, q) for q, r in cells] if refl else list(cells)
+            for _ in range(6):
+                cs = [(-r, q + r) for q, r in cs]      # rotation by 60 degrees in axial coordinates
+                fq, fr = min(cs)                       # translate the lexicographically first cell to the origin
+                key = tuple(sorted((q - fq, r - fr) for q, r in cs))
+                if best is None or key < best:
+                    best = key
+        return best
+    level = {canon([(0, 0)])}
+    seen = set(level)
+    for n in range(1, n_max + 1):
+        for cells in sorted(level):
+            yield list(cells)
+        if n == n_max:
+            break
+        nxt = set()
+        for cells in level:
+            cs = set(cells)
+            for q, r in cells:
+                for dq, dr in ((1, 0), (-1, 0), (0, 1), (0, -1), (1, -1), (-1, 1)):
+                    c = (q + dq, r + dr)
+                    if c not in cs:
+                        k = canon(list(cs | {c}))
+                        if k not in seen:
+                            seen.add(k)
+                            nxt.add(k)
+        level = nxt
+
+
+def polyhex_graph(cells):
+    """vertices / edges of the hexagon corners of a set of lattice cells"""
+    import math
+    idx, edges = {}, set()
+    for q, r in cells:
+        cx, cy = math.sqrt(3) * (q + r / 2), 1.5 * r
+        corners = []
+        for k in range(6):
+            a = math.radians(30 + 60 * k)
+            key = (round(cx + math.cos(a), 3), round(cy + math.sin(a), 3))
+            if key not in idx:
+                idx[key] = len(idx) + 1
+            corners.append(idx[key])
+        for k in range(6):
+            a, b = corners[k], corners[(k + 1) % 6]
+            edges.add((min(a, b), max(a, b)))
+    return len(idx), sorted(edges)
+
+
+def benzenoid(cells, rng=None, aza=0.0):
+    """aromatic-form benzenoid (all ring bonds order 4); with `aza` > 0 two-connected CH are replaced by N at random"""
+    from chython import MoleculeContainer
+    from chython.periodictable import Element
+    n, edges = polyhex_graph(cells)
+    deg = {v: 0 for v in range(1, n + 1)}
+    for a, b in edges:
+        deg[a] += 1
+        deg[b] += 1
+    m = MoleculeContainer()
+    for v in range(1, n + 1):
+        el = 'N' if (rng is not None and deg[v] == 2 and rng.random() < aza) else 'C'
+        m.add_atom(Element.from_symbol(el)(), v, _skip_calculation=True)
+    for a, b in edges:
+        m.add_bond(a, b, 4, _skip_calculation=True)
+    m.fix_structure()
+    return m
+
+
+def hetero_monocycles(size):
+    """every five- / six-membered monocyclic ring over the ring-atom types of the classical heteroaromatics, aromatic form,
+    one representative per rotation / reflection class (exhaustive)"""
+    from chython import MoleculeContainer
+    from chython.periodictable import Element
+    types = [('C', 0, None), ('N', 0, None), ('N', 0, 1), ('O', 0, None), ('S', 0, None)] if size == 5 else \
+        [('C', 0, None), ('N', 0, None), ('N', 1, 1), ('O', 1, None)]
+    seen = set()
+    for combo in itertools.product(range(len(types)), repeat=size):
+        variants = []
+        for refl in (combo, combo[::-1]):
+            for k in range(size):
+                variants.append(refl[k:] + refl[:k])
+        key = min(variants)
+        if key in seen:
+            continue
+        seen.add(key)
+        m = MoleculeContainer()
+        for i, t in enumerate(key, 1):
+            el, ch, h = types[t]
+            m.add_atom(Element.from_symbol(el)(charge=ch), i, _skip_calculation=True)
+        for i in range(1, size + 1):
+            m.add_bond(i, i % size + 1, 4, _skip_calculation=True)
+        m.fix_structure()
+        for i, t in enumerate(key, 1):
+            if types[t][2] is not None:
+                m._atoms[i]._implicit_hydrogens = types[t][2]
+        yield ''.join(types[t][0] + ('+' if types[t][1] else '') + ('H' if types[t][2] else '') for t in key), m
+
+
 def gen_arom(rng, wild=False):
     """an aromatic-form ring system with random atom types (many are not kekulisable: those exercise the raise paths).
     `wild`: any of the element / charge / hydrogen combinations the classification distinguishes, chemically meaningless
     ones included — used for the K streams and crash-freedom only."""
     from chython import MoleculeContainer
     from chython.periodictable import Element
-    size = rng.choice([5, 5, 6, 6, 6, 7])
+    size = rng.choice([5, 5, 6, 6, 6, 7]) if wild else rng.choice([5, 5, 6, 6, 6])
     n2 = rng.choice([0, 0, 5, 6])
     edges = [(i + 1, (i + 1) % size + 1) for i in range(size)]
     nxt = size + 1
@@ -544,6 +669,56 @@ def cls_template(z, charge, radical, nb, h, exo, fused):
     return out
 
 
+TH_Z = [5, 6, 7, 8, 15, 16, 34, 14]
+
+
+def mono_templates():
+    """monocyclic templates for the ring-eligibility table of thiele(): ring size 3..8, atom 1 = X (element, charge,
+    0..2 substituents, optionally one of them a coordinate bond or an exocyclic double bond), the other ring atoms carbon
+    with the double bonds placed by `variant`. Yields (key, MoleculeContainer)."""
+    from chython import MoleculeContainer
+    from chython.periodictable import Element
+    for lr in range(3, 9):
+        for variant in ('alt', 'shift', 'exo'):
+            if lr % 2:
+                dbl = {'alt': [(i, i + 1) for i in range(2, lr, 2)],           # X single: lr-1 sp2 carbons
+                       'shift': [(i, i + 1) for i in range(1, lr - 1, 2)],     # X double, atom lr sp3
+                       'exo': [(i, i + 1) for i in range(2, lr, 2)][1:]}[variant]
+            else:
+                dbl = {'alt': [(i, i + 1) for i in range(1, lr, 2)],           # all sp2
+                       'shift': [(i, i + 1) for i in range(2, lr - 1, 2)],     # X single, atom lr sp3
+                       'exo': [(i, i + 1) for i in range(1, lr, 2)][:-1]}[variant]
+            for z in TH_Z:
+                for charge in (-1, 0, 1):
+                    for subs in ((), (1,), (1, 1), (8,), (1, 8), (2,), (1, 1, 1)):
+                        m = MoleculeContainer()
+                        for i in range(1, lr + 1):
+                            el = Element.from_atomic_number(z)(charge=charge) if i == 1 else Element.from_atomic_number(6)()
+                            m.add_atom(el, i, _skip_calculation=True)
+                        for i in range(1, lr + 1):
+                            j = i % lr + 1
+                            m.add_bond(i, j, 2 if ((i, j) in dbl or (j, i) in dbl) else 1, _skip_calculation=True)
+                        nxt = lr + 1
+                        for o in subs:
+                            m.add_atom(Element.from_atomic_number(29 if o == 8 else 6)(), nxt, _skip_calculation=True)
+                            m.add_bond(1, nxt, o, _skip_calculation=True)
+                            nxt += 1
+                        if variant == 'exo':
+                            # the two carbons that lost their ring double bond get an exocyclic C=O (quinone-like)
+                            gone = [(i, i + 1) for i in (range(2, lr, 2) if lr % 2 else range(1, lr, 2))]
+                            gone = [e for e in gone if e not in dbl]
+                            for e in gone:
+                                for a in e:
+                                    m.add_atom(Element.from_atomic_number(8)(), nxt, _skip_calculation=True)
+                                    m.add_bond(a, nxt, 2, _skip_calculation=True)
+                                    nxt += 1
+                        try:
+                            m.fix_structure()
+                        except Exception:
+                            continue
+                        yield (lr, variant, z, charge, subs), m
+
+
 CLS_Z = [5, 6, 7, 8, 15, 16, 33, 34, 52, 14, 9, 32]
 
 
@@ -624,7 +799,7 @@ def mol_cases(tag, mol, batch, rel, rng, renum=True, dist=None, known=None):
         if tag.startswith('gen-arom-wild'):
             d('gen-arom-wild:K-streams-only')
             return False
-        if st == 'ok' and tag.startswith('gen-arom') and not valid_kekule_exists(fixed):
+        if st == 'ok' and tag.startswith(('gen-arom', 'heterocycle')) and not valid_kekule_exists(fixed):
             # random atom types: no valence-valid Kekulé structure exists, so this is not an aromatic molecule; the K
             # streams above (prep, fix) and crash-freedom are still checked
             d('gen-arom:no-valid-kekule-structure(outside domain)')
@@ -660,17 +835,26 @@ def mol_cases(tag, mol, batch, rel, rng, renum=True, dist=None, known=None):
     if st != 'ok':
         rel('thiele-outcome', f'{tag}: thiele() {st}', kints)
         return nontrivial
-    if not ret:
-        if not eq_snap(k, t):
-            rel('thiele-false-but-changed', f'{tag}: {diff_snap(k, t)}', kints)
-        return nontrivial
-    nontrivial = True
     tn = k.copy()
-    st, _ = outcome(lambda: tn.thiele(fix_tautomers=False))
+    st, retn = outcome(lambda: tn.thiele(fix_tautomers=False))
     if st != 'ok':
         rel('thiele-outcome', f'{tag}: thiele(fix_tautomers=False) {st}', kints)
     else:
         batch.add(line('thi', kints, wire.mol_to_ints(tn)), 'ok', 'R', 'thiele-nofix', (tag, kints))
+        # K: the functional model of thiele(fix_tautomers=False) (answers `freak` when a rule-matched ring is involved)
+        batch.add(line('tnf', kints, sssr_ints(k)), f'{int(bool(retn))} | {wire.mol_to_line(tn)}', 'KF', 'thiele-nofix-model', (tag, kints))
+        batch.add(line('thr', kints, wire.mol_to_ints(tn), sssr_ints(k)), 'ok', 'R', 'thiele-only-candidate-rings', (tag, kints))
+    batch.add(line('thr', kints, wire.mol_to_ints(t), sssr_ints(k)), 'ok', 'R', 'thiele-only-candidate-rings', (tag, kints))
+    if not ret:
+        if not eq_snap(k, t):
+            if tautomer_fix_only(k, t) and known is not None:
+                # known finding: the tautomer fix was applied, then the rings were discarded (quinoid) and False returned
+                d('known:tautomer-fix-applied-but-nothing-aromatised')
+                known(KNOWN_FALSE_SIG, f'{tag}: thiele() returned False but {diff_snap(k, t)}', kints)
+            else:
+                rel('thiele-false-but-changed', f'{tag}: {diff_snap(k, t)}', kints)
+        return nontrivial
+    nontrivial = True
     moved = [n for n in k._atoms if k._atoms[n].implicit_hydrogens != t._atoms[n].implicit_hydrogens]
     if moved:
         d('thiele:tautomer-fix-moved-H')
@@ -733,6 +917,20 @@ def mol_cases(tag, mol, batch, rel, rng, renum=True, dist=None, known=None):
                     if st != 'ok' or not eq_snap(tr, t4):
                         rel('thiele-kekule-thiele', f'{tag}: renumbered: {st} {diff_snap(tr, t4)}', wire.mol_to_ints(tr))
     return nontrivial
+
+
+def tautomer_fix_only(k, t):
+    """`t` differs from `k` by a moved hydrogen between two nitrogens (and bond orders), and thiele(fix_tautomers=False)
+    does not show the inconsistency (it changes nothing when it returns False)"""
+    (ka, kb), (ta, tb) = snapshot(k), snapshot(t)
+    moved = [n for n in ka if ka[n] != ta.get(n)]
+    if len(moved) != 2 or any(ka[n][0] != 7 or ka[n][:4] != ta[n][:4] for n in moved):
+        return False
+    if sum(ka[n][4] for n in moved) != sum(ta[n][4] for n in moved) or set(kb) != set(tb):
+        return False
+    a = k.copy()
+    st, ret = outcome(lambda: a.thiele(fix_tautomers=False))
+    return st == 'ok' and (bool(ret) or eq_snap(a, k))
 
 
 def tautomer_choice_only(k, kr, mp):
@@ -803,6 +1001,22 @@ def run_batch(ctx, batch):
                 ctx.cov['disagreements_checked'] += 1
                 ctx.broke('correspondence', name, f'{info[0]}: model {got[:300]!r} impl {exp[:300]!r} request {ln[:200]}')
                 _state.setdefault('bad', []).append((name, info[1]))
+        elif kind == 'KF':
+            if got == 'freak':
+                ctx.dist('tnf:freak-ring(not modelled)')
+            elif wire_core(got) != wire_core(exp):   # stereo marks (dropped by fix_stereo()) are not part of the property
+                ctx.cov['disagreements_checked'] += 1
+                ctx.broke('correspondence', name, f'{info[0]}: model {got[:400]!r} impl {exp[:400]!r}')
+                _state.setdefault('bad', []).append((name, info[1]))
+            else:
+                ctx.dist('tnf:equal')
+        elif kind == 'K1':
+            if got.split(' ')[0] != exp:
+                ctx.cov['disagreements_checked'] += 1
+                ctx.broke('correspondence', name, f'{info[0]}: model {got[:100]!r} impl {exp!r} request {ln[:200]}')
+                _state.setdefault('bad', []).append((name, info[1]))
+            else:
+                ctx.dist('tmono-kind:' + got.split(' ')[1].split(':')[0])
         else:
             if not got.startswith('ok'):
                 ctx.cov['disagreements_checked'] += 1
@@ -852,6 +1066,32 @@ def correspond(ctx):
     ctx.exhaustive = True  # the classification table is enumerated completely in both tiers
     ctx.notes.append(f'classification table: {n_rows} rows enumerated completely in {time.time() - t0:.1f}s')
 
+    # ---- K: ring eligibility of thiele() on monocyclic templates (exhaustive over the template grid)
+    batch = Batch()
+    n_t = 0
+    for key, m in mono_templates():
+        rings = [list(r) for r in m.sssr]
+        if len(rings) != 1:
+            continue
+        ring = rings[0]
+        t = m.copy()
+        st, ret = outcome(lambda: t.thiele())
+        if st != 'ok':
+            rel('thiele-outcome', f'template {key}: thiele() {st}', wire.mol_to_ints(m))
+            continue
+        rb = [int(t._bonds[a][b]) for a, b in zip(ring, ring[1:] + ring[:1])]
+        n4 = sum(1 for o in rb if o == 4)
+        if n4 not in (0, len(ring)) or bool(ret) != (n4 > 0):
+            rel('thiele-partial-ring', f'template {key}: ring orders {rb}, returned {ret!r}', wire.mol_to_ints(m))
+            continue
+        batch.add(line('tmono', wire.mol_to_ints(m), [len(ring)] + ring), str(int(n4 > 0)), 'K1', 'thiele-ring-eligibility',
+                  (str(key), wire.mol_to_ints(m)))
+        ctx.count(('tmono', key))
+        ctx.dist('tmono:' + ('aromatised' if n4 else 'left'))
+        n_t += 1
+    run_batch(ctx, batch)
+    ctx.notes.append(f'thiele ring-eligibility table: {n_t} monocyclic templates')
+
     # ---- molecules
     mols = []
     for s in MISDRAWN:
@@ -869,6 +1109,13 @@ def correspond(ctx):
             m = molgen.parse(s)
             if m is not None:
                 mols.append((f'heterocycles_charges.smi[{i}]', m))
+    for cells in polyhexes(4 if ctx.quick else 6):
+        mols.append((f'benzenoid:{len(cells)}hex:{cells}', benzenoid(cells)))
+        for j in range(1 if ctx.quick else 3):
+            mols.append((f'aza-benzenoid:{len(cells)}hex:{cells}#{j}', benzenoid(cells, rng, 0.25)))
+    for size in (5, 6):
+        for name, m in hetero_monocycles(size):
+            mols.append((f'heterocycle{size}:{name}', m))
     mols += molgen.corpus(rng, 220 if ctx.quick else 4200)
     n_gen = 260 if ctx.quick else 4000
     for i in range(n_gen):
@@ -976,6 +1223,9 @@ def property_failures(mol, rng=None, enum=True, perms=1):
         add('thiele-crash', st)
         return fails
     fails += thiele_clauses(k, t, strict_h=False)
+    if not ret and not eq_snap(k, t):
+        add('thiele-false-but-changed/tautomer-fix-without-aromatisation' if tautomer_fix_only(k, t)
+            else 'thiele-false-but-changed', diff_snap(k, t))
     tn = k.copy()
     st, _ = outcome(lambda: tn.thiele(fix_tautomers=False))
     if st == 'ok':
@@ -1132,7 +1382,7 @@ def search(ctx):
             break
         if m is None:
             m = gen_kekule(rng) if rng.random() < 0.7 else gen_arom(rng)
-            if m is None:
+            if m is None or (has_aromatic(m) and not valid_kekule_exists(m)):
                 continue
         try:
             try_mol(m, tag)
@@ -1141,16 +1391,19 @@ def search(ctx):
 
 
 def shrink(mol, clause):
-    """greedy atom deletion (non-ring atoms first) keeping the clause failing"""
+    """greedy deletion of terminal substituent atoms keeping the clause failing"""
     cur = mol
     improved = True
     rounds = 0
     while improved and rounds < 30:
         improved = False
         rounds += 1
+        ring_atoms = {x for r in cur.sssr for x in r}
         for n in sorted(cur._atoms, key=lambda x: len(cur._bonds[x])):
             if len(cur) <= 3:
                 break
+            if n in ring_atoms or len(cur._bonds[n]) != 1:
+                continue   # only terminal substituent atoms: deleting ring atoms leaves the classes the property names
             c = cur.copy()
             try:
                 hs = {x: a.implicit_hydrogens for x, a in c.atoms()}
